@@ -40,6 +40,9 @@ def _force_2d_filter(run_seed, filt):
             pass
     raise RuntimeError("no 2-D world inside the fence")
 
+# second, independent generator (simkit/hyp.py): (processes, examples per process) per tier
+HYP = dict(want='C13', force_2d=True, quick=(16, 120), thorough=(16, 4000))
+
 
 def generate(run_seed, tier, index):
     # 3 of 4 runs are integrator call histories, 1 of 4 a filter run (alternating kind)
